@@ -118,6 +118,7 @@ def run(tier):
             v, detail = verdicts[len(traces) + i]
             if v != "REJECT":
                 raise MachineryError("negative control %d not rejected: %s %s" % (i, v, detail))
+        common.check_members(c, [(name, rr.get("members")) for name, rr in res])
         c.part("conformance", configurations=[n for n, _r in res], calls=len(traces), verdicts=cnt,
                negative_controls_rejected=len(controls))
         c.cov["rule"] = ("every C entry point of the subject library (18 free-function cases covering native scalars, "
